@@ -46,6 +46,9 @@ class Nest:
         self.opaque = set()     # variables bound by patterns this model does not interpret (never turned into atoms)
         self.assigned = set()   # variables that are re-assigned somewhere (other than counters)
         self.parent_loop = {}   # id(loop node) -> enclosing loops (outer..inner)
+        self.pos = {}           # id(node) -> (pre-order number, enclosing loops)
+        self._order = 0
+        self._anon = 0
         for b in self.bodies:
             for p in facts.params(b):
                 if p.get("pat"):
@@ -82,17 +85,25 @@ class Nest:
     def _scan(self, n, b, loops):
         if not isinstance(n, dict):
             return
+        self._order += 1
+        self.pos[id(n)] = (self._order, list(loops))
         fl = F.for_loop_parts(n)
         if fl:
             it, pat, body, loop = fl
             its = strip(it)
-            if its.get("k") == "Adt" and its.get("adt") == RANGE and pat.get("k") == "Binding":
+            if its.get("k") == "Adt" and its.get("adt") == RANGE and pat.get("k") in ("Binding", "Wild"):
                 start = [f_["e"] for f_ in its["fields"] if f_["name"] == "start"]
                 end = [f_["e"] for f_ in its["fields"] if f_["name"] == "end"]
                 if start and lit_value(start[0]) == 0 and end:
-                    self.loopvars[pat["v"]] = (end[0], loop, b)
-                    self.parent_loop[pat["v"]] = list(loops)
-                    self._scan(body, b, loops + [pat["v"]])
+                    if pat.get("k") == "Wild":
+                        # `for _ in 0..n`: an index nobody reads; it still counts iterations
+                        self._anon += 1
+                        lv = "_%d#anon" % self._anon
+                    else:
+                        lv = pat["v"]
+                    self.loopvars[lv] = (end[0], loop, b)
+                    self.parent_loop[lv] = list(loops)
+                    self._scan(body, b, loops + [lv])
                     return
             for v, _, _, _ in F.pat_bindings(pat):
                 self.opaque.add(v)
@@ -157,8 +168,10 @@ class IdxEval:
             v = e["v"]
             if v in self.nest.loopvars:
                 return self.atom("i:" + v)
+            if getattr(self, "_self_ref", None) == v:
+                return self.atom("ctr:" + v)
             if v in self.nest.mut_counters:
-                return self.counter(v)
+                return self.counter(v, e)
             if v in self.nest.opaque:
                 raise Abstain("`%s` is bound by a pattern the index model does not read" % self.name_of(v))
             if v in self.nest.assigned:
@@ -269,44 +282,86 @@ class IdxEval:
             return None if x is None else not x
         return None
 
-    def counter(self, v):
-        """`let mut v = c0; ... v += 1` once, in the innermost loop of a nest of 0..n ranges: lexicographic rank (+ c0)"""
-        incs = []
-        for b in self.nest.bodies:
-            for n in walk(self.nest.facts.root(b)):
-                if n.get("k") == "AssignOp" and F.var_of(n["l"]) == v:
-                    incs.append(n)
-                if n.get("k") == "Assign" and F.var_of(n["l"]) == v:
-                    raise Abstain("counter %s is re-assigned" % self.name_of(v))
-        if len(incs) != 1 or str(incs[0].get("op")).replace("Assign", "") != "Add" or lit_value(incs[0]["r"]) != 1:
-            raise Abstain("counter %s is not incremented by exactly one `+= 1`" % self.name_of(v))
-        loops = incs[0].get("_loops")
-        if loops is None:
-            # the increment is an expression statement: find it in a noted statement
-            for b in self.nest.bodies:
-                for n in walk(self.nest.facts.root(b)):
-                    if n.get("_loops") is not None and any(x is incs[0] for x in walk(n)):
-                        loops = n["_loops"]
-        if not loops or any(l is None for l in loops):
-            raise Abstain("counter %s is not incremented inside a nest of plain range loops" % self.name_of(v))
-        decl = self.nest.decl_loops.get(v, [])
-        if loops[:len(decl)] != decl or len(loops) == len(decl):
-            raise Abstain("counter %s is not incremented in loops nested inside its declaration" % self.name_of(v))
-        inner = loops[len(decl):]
-        rank = Frac(0)
-        for i, lv in enumerate(inner):
-            term = self.atom("i:" + lv)
-            for later in inner[i + 1:]:
-                term = term * self.extent(later)
-            rank = rank + term
-        self.counter_loops = loops
-        # the initial value is evaluated as an ordinary expression (it may mention the enclosing loops' variables)
-        saved = self.nest.mut_counters.pop(v)
+    def counter(self, v, site=None):
+        """`let mut v = c0;` updated only by unconditional `v += d` / `v -= d` / `v = v + d..` statements with loop-invariant d, at any
+        level of a nest of `0..n` loops: value at the reading site = c0 + sum over the updates of d x (times executed before the
+        site) = d x (rank of the common loops x iterations of the update's own inner loops + those of the current iteration that
+        precede the site)"""
+        nest = self.nest
+        ups = []
+        for b in nest.bodies:
+            root = nest.facts.root(b)
+            for n, ctx in F.walk_ctx(root):
+                if n.get("k") in ("AssignOp", "Assign") and F.var_of(n["l"]) == v and strip(n["l"]).get("k") in ("VarRef", "UpvarRef"):
+                    cond = any(fr[0] in ("if", "guard", "logic") or (fr[0] == "arm" and not str(fr[1].get("source", "")).startswith("ForLoopDesugar")) for fr in ctx)
+                    ups.append((n, cond))
+        if not ups:
+            raise Abstain("counter %s is never updated" % self.name_of(v))
+        decl = nest.decl_loops.get(v, [])
+        saved = nest.mut_counters.pop(v)
         try:
-            init = self.poly(saved)
+            total = self.poly(saved)
+            spos = nest.pos.get(id(site)) if site is not None else None
+            for n, cond in ups:
+                if cond:
+                    raise Abstain("counter %s is updated conditionally" % self.name_of(v))
+                upos = nest.pos.get(id(n))
+                if upos is None:
+                    raise Abstain("update of %s not located" % self.name_of(v))
+                if n["k"] == "AssignOp":
+                    op = str(n.get("op")).replace("Assign", "")
+                    if op not in ("Add", "Sub"):
+                        raise Abstain("counter %s is updated with `%s=`" % (self.name_of(v), op))
+                    d = self.poly(n["r"])
+                    if op == "Sub":
+                        d = Frac(0) - d
+                else:
+                    # v = v + d1 - d2 ...: evaluate the right-hand side with v as a symbol of its own
+                    nest.mut_counters[v] = None
+                    self._self_ref = v
+                    try:
+                        rhs = self.poly(n["r"])
+                    finally:
+                        self._self_ref = None
+                        nest.mut_counters.pop(v, None)
+                    me = self.atom("ctr:" + v)
+                    d = rhs - me
+                    if any(a == "ctr:" + v for a in d.atoms()):
+                        raise Abstain("counter %s is re-assigned to something other than itself plus an increment" % self.name_of(v))
+                lu = upos[1]
+                if any(l is None for l in lu) or lu[:len(decl)] != decl or len(lu) == len(decl):
+                    raise Abstain("counter %s is not updated inside a nest of plain range loops nested in its declaration" % self.name_of(v))
+                lu = lu[len(decl):]
+                if any(("i:" + l) in d.atoms() for l in lu):
+                    raise Abstain("the increment of %s varies with the loops it is in" % self.name_of(v))
+                if spos is None:
+                    # no site given (old form): the reader sits in the update's own innermost loop, before the update
+                    luse, before = lu, False
+                else:
+                    luse = spos[1]
+                    if any(l is None for l in luse) or luse[:len(decl)] != decl:
+                        raise Abstain("counter %s is read outside the loops of its declaration" % self.name_of(v))
+                    luse = luse[len(decl):]
+                    before = upos[0] < spos[0]
+                common = []
+                for x, y in zip(lu, luse):
+                    if x != y:
+                        break
+                    common.append(x)
+                rank = Frac(0)
+                for i, lv in enumerate(common):
+                    term = self.atom("i:" + lv)
+                    for later in common[i + 1:]:
+                        term = term * self.extent(later)
+                    rank = rank + term
+                inner = Frac(1)
+                for lv in lu[len(common):]:
+                    inner = inner * self.extent(lv)
+                times = rank * inner + (inner if before else Frac(0))
+                total = total + d * times
+            return total
         finally:
-            self.nest.mut_counters[v] = saved
-        return rank + init
+            nest.mut_counters[v] = saved
 
     def extent(self, lv):
         return self.poly(self.nest.loopvars[lv][0])
